@@ -146,6 +146,7 @@ def map(
     to_process = []
     to_render = []
     to_scatter = []
+    operations = []
     for layer in layers:
         if not isinstance(layer, Layer):
             raise TypeError(f"Expected Layer object, got {type(layer)} instead. ")
@@ -165,6 +166,7 @@ def map(
             to_scatter.append({"data": layer.data, "params": layer.kwargs})
         else:
             to_process.append(layer.data)
+            operations.append(layer.operation)
             to_render.append(
                 {
                     "mode": layer.mode,
@@ -395,14 +397,20 @@ def map(
         ndim=ndim,
     )
 
-    # Apply operation along depth
-    binned = getattr(np, operation)(binned, axis=1)
-
-    # Handle thick maps
-    if thick and ((operation == "sum") or (operation == "nansum")):
-        binned *= zspacing
-        for layer in to_render:
+    # Apply operation along depth: each layer uses its own operation (the one passed
+    # to the call is the default for the layers that do not set one)
+    reduced = np.empty(binned.shape[:1] + binned.shape[2:], dtype=binned.dtype)
+    counter = 0
+    for ind, layer in enumerate(to_render):
+        nvars = 1 if scalar_layer[ind] else 3
+        inds = slice(counter, counter + nvars)
+        reduced[inds] = getattr(np, operations[ind])(binned[inds], axis=1)
+        # Handle thick maps
+        if thick and (operations[ind] in ("sum", "nansum")):
+            reduced[inds] *= zspacing
             layer["unit"] = layer["unit"] * dataz.unit
+        counter += nvars
+    binned = reduced
 
     # Mask NaN values
     mask = np.isnan(binned[-1, ...])
